@@ -5,12 +5,34 @@ from ..common import cps, import_hl7apy, exc_name
 
 
 def tree_of(el, depth=0):
+    """recursive projection: level, name, class, and whether the listed child reports this element as its parent"""
     out = []
     for ch in el.children:
-        out.append([depth, ch.name or "?", ch.classname])
+        out.append([depth, ch.name or "?", ch.classname, bool(ch.parent is el)])
         if ch.classname != "SubComponent" and depth < 4:
             out.extend(tree_of(ch, depth + 1))
     return out
+
+
+def links_of(roots):
+    """every (lister, listed child) pair below the given elements: [id of lister, id of child, child.parent is lister,
+    same version and validation level]; ids are small numbers in order of first appearance"""
+    ids = {}
+    rows = []
+
+    def num(x):
+        return ids.setdefault(id(x), len(ids) + 1)
+
+    def walk(el, depth):
+        for ch in el.children:
+            rows.append([num(el), num(ch), bool(ch.parent is el),
+                         bool(ch.version == el.version and ch.validation_level == el.validation_level)])
+            if ch.classname != "SubComponent" and depth < 4:
+                walk(ch, depth + 1)
+    for r in roots:
+        if r is not None:
+            walk(r, 0)
+    return rows
 
 
 def targets(v, L):
@@ -64,6 +86,9 @@ def targets(v, L):
             ("component_in_field", comp_in_field), ("group", group), ("message", msg)]
 
 
+OTHERS = []      # further elements an operation involved (the parent that refused, ...): their listings are observed too
+
+
 def operations(v, L, other):
     import_hl7apy()
     from hl7apy.core import Segment, Field, Component, SubComponent, Group
@@ -90,6 +115,65 @@ def operations(v, L, other):
         ("children[0]=foreign text", lambda t: t.children.__setitem__(0, "NK1|zzz" if t.classname in ("Group", "Message") else Field("NK1_2", version=v, validation_level=L))),
         ("pop out of range", lambda t: t.children.pop(50)),
     ]
+
+    # an ATTACHED child of the target is handed to another parent that refuses it (other level / other version)
+    def refusing(t, how_differs):
+        kw = {"version": v, "validation_level": L}
+        if how_differs == "level":
+            kw["validation_level"] = other
+        else:
+            kw["version"] = "2.4" if v != "2.4" else "2.5"
+        if t.classname in ("Field", "Component"):
+            return type(t)(t.name, datatype=None, **kw)
+        return type(t)(t.name, **kw)
+
+    def mover(how, how_differs):
+        def op(t):
+            c = list(t.children)[-1]
+            b = refusing(t, how_differs)
+            OTHERS.append(b)
+            if how == "add":
+                b.add(c)
+            elif how == "parent":
+                c.parent = b
+            elif how == "insert":
+                b.children.insert(0, c)
+            elif how == "append":
+                b.children.append(c)
+            elif how == "setattr":
+                setattr(b, c.name.lower(), c)
+            elif how == "children":
+                b.children = [c]
+        op.other = lambda t: None
+        return op
+    for how in ("add", "parent", "insert", "append", "setattr", "children"):
+        for hd in ("level", "version"):
+            ops.append(("move last child to a parent of another %s by %s" % (hd, how), mover(how, hd)))
+
+    # a refused element assigned below a child of the target that does not exist yet (reached by traversal only)
+    ABSENT = {"Message": ("pv2", "pv2_3", Field, "PV2_3"), "Group": ("in2", "in2_1", Field, "IN2_1"),
+              "Segment": ("pid_9", "xpn_1", Component, "XPN_1"), "Field": ("cx_6", "hd_1", SubComponent, "HD_1")}
+
+    def below_absent(how_differs, deep):
+        def op(t):
+            a, g, cls, nm = ABSENT[t.classname]
+            kw = {"version": v, "validation_level": L}
+            if how_differs == "level":
+                kw["validation_level"] = other
+            elif how_differs == "version":
+                kw["version"] = "2.4" if v != "2.4" else "2.5"
+            bad = cls(nm, **kw) if how_differs != "class" else Group("ADT_A01_INSURANCE", version=v, validation_level=L)
+            x = getattr(t, a)
+            if deep == "setattr":
+                setattr(x, g, bad)
+            elif deep == "index":
+                getattr(x, g)[0] = bad
+            else:
+                x.add(bad)
+        return op
+    for hd in ("level", "version", "class"):
+        for deep in ("setattr", "index", "add"):
+            ops.append(("assign a refused element below an absent child (%s, %s)" % (hd, deep), below_absent(hd, deep)))
     return ops
 
 
@@ -107,11 +191,16 @@ def events_for(v):
                     continue
                 e = {"target": tname, "op": oname, "lvl": ln, "v": v, "enc_before": cps(t.to_er7()), "tree_before": tree_of(t),
                      "root_before": cps(root.to_er7())}
+                del OTHERS[:]
                 try:
                     op(t)
                     e["outcome"] = "ok"
                 except Exception as ex:
                     e["outcome"] = exc_name(ex)
+                try:
+                    e["links"] = links_of([root] + list(OTHERS))
+                except Exception as ex:
+                    e["links"] = [[0, 0, False, False]]
                 try:
                     e["enc_after"] = cps(t.to_er7())
                     e["tree_after"] = tree_of(t)
@@ -122,3 +211,40 @@ def events_for(v):
                     e["root_after"] = []
                 out.append(e)
     return out
+
+
+ATOMIC_CLAUSES = {"rejected_call_changed_the_encoding", "rejected_call_changed_the_children", "rejected_call_changed_an_ancestor"}
+CONSISTENCY_CLAUSES = {"listed_child_reports_another_parent", "element_listed_twice", "mixed_version_or_level_in_one_tree"}
+
+
+def run_probes(ctx, focus):
+    """all probes of all targets, judged by AtomicTrace (TLC); the clauses in `focus` are this property's"""
+    from ..common import pmap, judge
+    versions = ["2.5"] if ctx.tier == "quick" else ["2.3", "2.5", "2.6", "2.8"]
+    events = []
+    for part in pmap(events_for, versions):
+        for e in part:
+            if "harness_note" in e:
+                ctx.notes.append(e["harness_note"])
+            else:
+                events.append(e)
+    for i, e in enumerate(events):
+        e["id"] = i + 1
+    failed, trivial = judge(ctx, "AtomicTrace", "AtomicTrace.cfg", events)
+    byid = {e["id"]: e for e in events}
+    ctx.evaluations += len(events)
+    ctx.extra["atomic_probes"] = len(events)
+    ctx.extra["atomic_probes_rejected"] = len(events) - len(trivial)
+    for e in events:
+        if e["id"] not in trivial or focus is CONSISTENCY_CLAUSES:
+            ctx.nontrivial(("atomic", e["target"], e["op"], e["lvl"], e["v"]))
+    for i, clause in sorted(failed.items()):
+        e = byid[i]
+        for part_ in str(clause).split("+"):
+            if part_ in focus:
+                ctx.fail({"clause": part_, "target": e["target"], "op": e["op"], "lvl": e["lvl"], "outcome": e["outcome"]},
+                         {"clause": part_, "event": {k: (("".join(chr(c) for c in e[k])) if k.startswith(("enc_", "root_")) else e[k])
+                                                     for k in e}})
+            else:
+                ctx.extra.setdefault("other_property_clauses_seen", {}).setdefault(part_, 0)
+                ctx.extra["other_property_clauses_seen"][part_] += 1
